@@ -2,7 +2,6 @@ package main
 
 import (
 	"fmt"
-	"strings"
 	"go/constant"
 	"go/token"
 	"go/types"
@@ -400,6 +399,21 @@ func (vc *VC) strLess(a, b string) string {
 	return app("strlt", a, b)
 }
 
+// sumLess: strict total order on checksum ids, tied to the string order of 16-byte strings (what string(a) < string(b) computes).
+func (vc *VC) sumLess(a, b string) string {
+	vc.declareFun("sumlt", []string{"Int", "Int"}, "Bool")
+	vc.axiom("sumlt_irrefl", "(forall ((a Int)) (! (not (sumlt a a)) :pattern ((sumlt a a))))")
+	vc.axiom("sumlt_trans", "(forall ((a Int) (b Int) (c Int)) (! (=> (and (sumlt a b) (sumlt b c)) (sumlt a c)) :pattern ((sumlt a b) (sumlt b c))))")
+	vc.axiom("sumlt_total", "(forall ((a Int) (b Int)) (! (or (sumlt a b) (sumlt b a) (= a b)) :pattern ((sumlt a b))))")
+	vc.axiom("sumlt_asym", "(forall ((a Int) (b Int)) (! (not (and (sumlt a b) (sumlt b a))) :pattern ((sumlt a b))))")
+	// link with strings: for 16-byte strings, s1 < s2 iff their ids are in sumlt
+	vc.needStr()
+	vc.declareFun("strid", []string{"Int"}, "Int")
+	vc.declareFun("strlt", []string{"Int", "Int"}, "Bool")
+	vc.axiom("sumlt_str", "(forall ((s Int) (t Int)) (! (=> (and (= (slen s) 16) (= (slen t) 16)) (= (strlt s t) (sumlt (strid s) (strid t)))) :pattern ((strlt s t))))")
+	return app("sumlt", a, b)
+}
+
 func (vc *VC) strConcat(st *State, a, b string) string {
 	vc.needStr()
 	vc.declareFun("strcat", []string{"Int", "Int"}, "Int")
@@ -477,19 +491,12 @@ func (vc *VC) bytesToString(st *State, b Val) string {
 	r := vc.name("reg", "(Array Int Int)", Sel(h, b.Reg))
 	vc.define(Eq(app("slen", s), Ite(Ge(b.Len, "0"), b.Len, "0")))
 	vc.define(fmt.Sprintf("(forall ((i Int)) (! (=> (and (<= 0 i) (< i %s)) (= (sbyte %s i) (select %s (+ %s i)))) :pattern ((sbyte %s i))))", b.Len, s, r, b.Off, s))
-	// ground instances for the first 16 bytes (checksums used as map keys / compared as strings)
-	var g []string
-	for k := 0; k < 16; k++ {
-		ks := numI(int64(k))
-		g = append(g, Imp(Lt(ks, b.Len), Eq(app("sbyte", s, ks), Sel(r, Add(b.Off, ks)))))
-	}
-	vc.define(And(g...))
-	// strings of 16 bytes with the same bytes are the same string
-	var eqs []string
-	for k := 0; k < 16; k++ {
-		eqs = append(eqs, fmt.Sprintf("(= (sbyte a %d) (sbyte b %d))", k, k))
-	}
-	vc.axiom("str_ext16", "(forall ((a Int) (b Int)) (! (=> (and (= (slen a) 16) (= (slen b) 16) "+strings.Join(eqs, " ")+") (= a b)) :pattern ((slen a) (slen b))))")
+	// 16-byte strings (checksums used as map keys / compared as strings) carry the id of their bytes: equality and order of such
+	// strings are equality and order of the ids, with no byte-level reasoning
+	vc.needSid()
+	vc.declareFun("strid", []string{"Int"}, "Int")
+	vc.define(Imp(Eq(b.Len, "16"), Eq(app("strid", s), app("sid16", h, b.Reg, b.Off))))
+	vc.axiom("strid_inj", "(forall ((s Int) (t Int)) (! (=> (and (= (slen s) 16) (= (slen t) 16) (= (strid s) (strid t))) (= s t)) :pattern ((strid s) (strid t))))")
 	return s
 }
 
